@@ -101,6 +101,127 @@ func main() {
 		os.Exit(1)
 	}
 	o := &out{defs: map[string]string{}}
+	// build facts: which files make up the library, and whether anything but a declaration ever writes a
+	// package-level variable (the translators read named files and assume there is no state shared between calls)
+	var buildFiles, initFuncs, pkgVarWrites, constrained, blankVars []string
+	rel := func(fname string) string {
+		r := strings.TrimPrefix(fname, strings.TrimSuffix(repo, "/")+"/")
+		return r
+	}
+	for _, p := range pkgs {
+		short := p.Name // cors, cfgerrors, headers, methods, origins, util
+		if short == "main" {
+			continue
+		}
+		info := p.TypesInfo
+		for _, f := range p.Syntax {
+			fname := p.Fset.Position(f.Pos()).Filename
+			if strings.HasSuffix(fname, "_test.go") {
+				continue
+			}
+			buildFiles = append(buildFiles, rel(fname))
+			for _, cg := range f.Comments {
+				for _, c := range cg.List {
+					if strings.HasPrefix(c.Text, "//go:build") || strings.HasPrefix(c.Text, "// +build") || strings.HasPrefix(c.Text, "//go:linkname") {
+						constrained = append(constrained, rel(fname)+": "+c.Text)
+					}
+				}
+			}
+			// the package-level variable an lvalue expression is rooted in ("" if none)
+			var rootVar func(e ast.Expr) string
+			rootVar = func(e ast.Expr) string {
+				switch x := e.(type) {
+				case *ast.ParenExpr:
+					return rootVar(x.X)
+				case *ast.StarExpr:
+					return rootVar(x.X)
+				case *ast.IndexExpr:
+					return rootVar(x.X)
+				case *ast.SliceExpr:
+					return rootVar(x.X)
+				case *ast.SelectorExpr:
+					if id, ok := x.X.(*ast.Ident); ok {
+						if _, isPkg := info.Uses[id].(*types.PkgName); isPkg {
+							if v, ok := info.Uses[x.Sel].(*types.Var); ok && v.Pkg() != nil && v.Parent() == v.Pkg().Scope() {
+								return v.Pkg().Name() + "." + v.Name()
+							}
+							return ""
+						}
+					}
+					return rootVar(x.X)
+				case *ast.Ident:
+					if v, ok := info.Uses[x].(*types.Var); ok && v.Pkg() != nil && v.Parent() == v.Pkg().Scope() {
+						return v.Pkg().Name() + "." + v.Name()
+					}
+				}
+				return ""
+			}
+			for _, d := range f.Decls {
+				switch d := d.(type) {
+				case *ast.FuncDecl:
+					if d.Recv == nil && d.Name.Name == "init" {
+						initFuncs = append(initFuncs, rel(fname)+": init")
+					}
+					if d.Body == nil {
+						continue
+					}
+					where := rel(fname) + ": " + d.Name.Name
+					ast.Inspect(d.Body, func(n ast.Node) bool {
+						switch s := n.(type) {
+						case *ast.AssignStmt:
+							if s.Tok != token.DEFINE {
+								for _, l := range s.Lhs {
+									if v := rootVar(l); v != "" {
+										pkgVarWrites = append(pkgVarWrites, where+" writes "+v)
+									}
+								}
+							}
+						case *ast.IncDecStmt:
+							if v := rootVar(s.X); v != "" {
+								pkgVarWrites = append(pkgVarWrites, where+" writes "+v)
+							}
+						case *ast.RangeStmt:
+							if s.Tok == token.ASSIGN {
+								for _, l := range []ast.Expr{s.Key, s.Value} {
+									if l != nil {
+										if v := rootVar(l); v != "" {
+											pkgVarWrites = append(pkgVarWrites, where+" writes "+v)
+										}
+									}
+								}
+							}
+						case *ast.CallExpr: // in-place library calls on a package-level slice or map
+							switch fn := types.ExprString(s.Fun); fn {
+							case "slices.Sort", "slices.SortFunc", "slices.Reverse", "sort.Strings", "sort.Ints", "clear", "copy", "delete", "maps.Copy", "slices.Compact", "slices.Delete", "slices.Insert":
+								if len(s.Args) > 0 {
+									if v := rootVar(s.Args[0]); v != "" {
+										pkgVarWrites = append(pkgVarWrites, where+" writes "+v+" through "+fn)
+									}
+								}
+							}
+						}
+						return true
+					})
+				case *ast.GenDecl:
+					if d.Tok == token.VAR {
+						for _, sp := range d.Specs {
+							for _, id := range sp.(*ast.ValueSpec).Names {
+								if id.Name == "_" {
+									blankVars = append(blankVars, rel(fname)+": var _")
+								}
+							}
+						}
+					}
+				}
+			}
+		}
+	}
+	sort.Strings(buildFiles)
+	o.add("build_files", "list bytes", coqList(buildFiles), strings.Join(buildFiles, " "))
+	o.add("build_init_functions", "list bytes", coqList(initFuncs), strings.Join(initFuncs, " | "))
+	o.add("build_package_variable_writes", "list bytes", coqList(pkgVarWrites), strings.Join(pkgVarWrites, " | "))
+	o.add("build_constrained_files", "list bytes", coqList(constrained), strings.Join(constrained, " | "))
+	o.add("build_blank_variables", "list bytes", coqList(blankVars), strings.Join(blankVars, " | "))
 	for _, p := range pkgs {
 		short := p.Name // cors, cfgerrors, headers, methods, origins, util
 		if short == "main" {
